@@ -363,8 +363,12 @@ def find_def(tree, qual):
     node = None
     for p in parts:
         node = None
+        # "name@setter": the definition of that name decorated with `@<...>.setter` (a property's setter shares its getter's name)
+        p, _, deco = p.partition("@")
         for n in body:
             if isinstance(n, (ast.ClassDef, ast.FunctionDef, ast.AsyncFunctionDef)) and n.name == p:
+                if deco and not any(ast.unparse(d).split(".")[-1] == deco for d in getattr(n, "decorator_list", [])):
+                    continue
                 node = n
                 break
         if node is None:
@@ -505,8 +509,9 @@ def locate(fn, loc):
     if kind == "has_call":
         # ("has_call", callee suffix): does the function contain, outside any nested function, a call whose callee text ends
         # with the suffix?  -> a boolean constant (e.g. "the close path cancels the timer")
-        hit = any(isinstance(n, ast.Call) and ast.unparse(n.func).endswith(loc[1]) for n in ast.walk(fn))
-        return ast.copy_location(ast.Constant(value=bool(hit)), fn)
+        # ("has_call", callee suffix, min_count): ... at least min_count such calls (e.g. "both queues are purged")
+        hits = [n for n in ast.walk(fn) if isinstance(n, ast.Call) and ast.unparse(n.func).endswith(loc[1])]
+        return ast.copy_location(ast.Constant(value=len(hits) >= (loc[2] if len(loc) > 2 else 1)), fn)
     if kind == "body_empty":
         # ("body_empty",): the function does nothing (docstring / `pass` / `return` only)  -> a boolean constant
         body = [x for x in strip_doc(fn.body) if not isinstance(x, ast.Pass) and not (isinstance(x, ast.Return) and x.value is None)]
